@@ -7,6 +7,7 @@ of the function symbols. Calls are logged.
 
     B4   inputs a, b, c, d (d has the default "dd")   one output   o = ("g", a, b, c, d)
     B3   inputs a, b, c                              two outputs  p = ("p", a, b, c), q = ("q", a, b, c)
+    B12  inputs x0 … x11 (x11 has the default "e")   two outputs  o = ("w", x0, …, x11), o2 = ("v", x0, …, x11)
     BC   inputs a, b, c                              two outputs  a = ("h", a, b, c), r = ("r", a, b, c)
          (output label `a` clashes with the input label: a column map is compulsory when `a` is looped)
 """
@@ -51,6 +52,15 @@ def BC(a, b, c):
     x = ("h", a, b, c)
     r = ("r", a, b, c)
     return x, r
+
+
+@as_function_node("o", "o2", validate_output_labels=False)
+def B12(x0, x1, x2, x3, x4, x5, x6, x7, x8, x9, x10, x11="e"):
+    """twelve inputs: the labels x10, x11 sort before x2 as strings"""
+    _log("B12", x0, x1, x2, x3, x4, x5, x6, x7, x8, x9, x10, x11)
+    o = ("w", x0, x1, x2, x3, x4, x5, x6, x7, x8, x9, x10, x11)
+    o2 = ("v", x0, x1, x2, x3, x4, x5, x6, x7, x8, x9, x10, x11)
+    return o, o2
 
 
 @as_function_node("o", validate_output_labels=False)
